@@ -113,8 +113,70 @@ pub fn payload_len(r: &Runner, rng: &mut Rng, qlen: usize, nrec: usize, cfg: &Ge
     }
 }
 
+fn crc_table() -> [u32; 256] {
+    let mut t = [0u32; 256];
+    for i in 0..256u32 {
+        let mut c = i;
+        for _ in 0..8 {
+            c = if c & 1 != 0 { 0xEDB88320 ^ (c >> 1) } else { c >> 1 };
+        }
+        t[i as usize] = c;
+    }
+    t
+}
+
+/// four bytes which, appended to `prefix`, make the CRC-32 of the whole equal to `target`
+pub fn crc_forcing_suffix(prefix: &[u8], target: u32) -> [u8; 4] {
+    let t = crc_table();
+    let mut h = crc32fast::Hasher::new();
+    h.update(prefix);
+    let state = h.finalize() ^ 0xFFFF_FFFF;
+    // undo four zero-byte steps from the wanted final register
+    let mut r = target ^ 0xFFFF_FFFF;
+    for _ in 0..4 {
+        let idx = (0..256usize).find(|i| t[*i] >> 24 == r >> 24).unwrap();
+        r = ((r ^ t[idx]) << 8) | idx as u32;
+    }
+    (state ^ r).to_le_bytes()
+}
+
+/// a single-record payload for which the frame holding the append entry of `q` at `pos` gets the
+/// checksum `target` (the entry must fit in one Full frame): content-dependent special cases of the
+/// reader (a null checksum word, an all-ones one) are reached on purpose, not once in 2^32 frames
+pub fn payload_with_frame_crc(q: &str, pos: u64, body: &[u8], target: u32) -> Vec<u8> {
+    let plen = body.len() + 4;
+    let mut pre = vec![1u8]; // frame type Full
+    pre.push(4u8); // AppendRecords
+    pre.extend_from_slice(&pos.to_le_bytes());
+    pre.extend_from_slice(&(q.len() as u16).to_le_bytes());
+    pre.extend_from_slice(q.as_bytes());
+    pre.extend_from_slice(&pos.to_le_bytes());
+    pre.extend_from_slice(&(plen as u32).to_le_bytes());
+    pre.extend_from_slice(body);
+    let suffix = crc_forcing_suffix(&pre, target);
+    let mut payload = body.to_vec();
+    payload.extend_from_slice(&suffix);
+    let mut h = crc32fast::Hasher::new();
+    h.update(&pre);
+    h.update(&suffix);
+    assert_eq!(h.finalize(), target);
+    payload
+}
+
 pub fn gen_append(r: &Runner, rng: &mut Rng, cfg: &GenCfg, q: String) -> Op {
     let next = r.spec.queues.get(&q).map(|s| s.next).unwrap_or(0);
+    if rng.chance(1, 40) && q.len() < 200 {
+        let body: Vec<u8> = (0..rng.below(24)).map(|_| rng.next() as u8).collect();
+        let frame_len = HEADER + 11 + q.len() as u64 + 12 + body.len() as u64 + 4;
+        let off = r.real.cursor.1;
+        let room = BLOCK - off % BLOCK;
+        let room = if room < HEADER { BLOCK } else { room };
+        if frame_len <= room {
+            let target = *rng.pick(&[0u32, 0, 0xFFFF_FFFF, 0x0000_0001, 0xFF00_0000]);
+            let payload = payload_with_frame_crc(&q, next, &body, target);
+            return Op::Append { q, pos: None, payloads: vec![Payload::Hex(payload)] };
+        }
+    }
     if rng.chance(1, 40) {
         // a large batch of equal-size records whose serialised size (12 + len) divides the
         // payload capacity of a full frame (32761 = 181 * 181): losing whole frames out of the
